@@ -18,6 +18,7 @@ import PgBifrost.Driver.Sys
 import PgBifrost.Driver.Backoff
 import PgBifrost.Driver.Runner
 import PgBifrost.Driver.Plumbing
+import PgBifrost.Driver.RabbitConn
 /-! `bfmodel`: line-protocol driver for the executable models (core Lean only, so it links).
 One request line in, one answer line out. First word selects the model. -/
 open PgBifrost
@@ -30,6 +31,7 @@ structure DriverState where
   batchermon : Driver.BatcherMon.MState := {}
   filter : Driver.Filter.DState := ⟨false, false, []⟩
   partitioner : Driver.Partitioner.DState := {}
+  rabbitconn : Driver.RabbitConn.DState := {}
   pipemon : Driver.Pipeline.MState := []
   connmgr : Driver.ConnManager.DState := {}
   marshal : Driver.Marshal.DState := {}
@@ -82,6 +84,7 @@ def dispatch (st : DriverState) (line : String) : DriverState × String :=
   | "runner" :: args => (st, Driver.Runner.handle args)
   | "clientstop" :: args => (st, Driver.Runner.clientStop args)
   | "plumbing" :: args => (st, Driver.Plumbing.handle args)
+  | "rabbitconn" :: args => let (s, out) := Driver.RabbitConn.handle st.rabbitconn args; ({ st with rabbitconn := s }, out)
   | "retrypolicy" :: args => let (s, out) := Driver.Backoff.handle st.backoff args; ({ st with backoff := s }, out)
   | ["ping"] => (st, "pong")
   | _ => (st, "bad-op")
